@@ -233,7 +233,7 @@ func init() {
 			return s
 		},
 		Run:  c09Run,
-		Rule: "nestings of {for over a slice / an Iterator / a map, user-function call, partial with data, contentFor+contentOf with data, contentOf default block with data, block helper using BlockWith(child), block helper using Block(), if, contentFor defined at top level and used at the inner level, one contentFor block used twice (with and without data), one data map held in a variable and passed to two partial calls}; at each level every subset of {let fresh_l, shadowing let o, assignment o = …}; every name (o, fresh names, loop variables, parameters, data names of every level) is probed at the end of each body, after each construct closes and at the end of the template; compared with an environment-chain reference model (let/assign bind in the current scope, lookup outward; for/call/partial/contentOf/BlockWith open a scope, if and Block() do not; a far contentFor block runs in a child of its definition scope). (repeat) every scope-opening construct entered twice or more from the same place (a function called from two tags / from every loop iteration / recursively, a partial and a contentOf rendered twice, a loop run twice, BlockWith twice): the body reads a name BEFORE its own let of that name, or lets it on one path only - every entry must see the outer value (or nothing), never what an earlier entry bound. Non-trivial: depth >= 2 with at least one binding action.",
+		Rule: "nestings of {for over a slice / an Iterator / a map, user-function call, partial with data, contentFor+contentOf with data, contentOf default block with data, block helper using BlockWith(child), block helper using Block(), if, contentFor defined at top level and used at the inner level, one contentFor block used twice (with and without data), one data map held in a variable and passed to two partial calls}; at each level every subset of {let fresh_l, shadowing let o, assignment o = …}; every name (o, fresh names, loop variables, parameters, data names of every level) is probed at the end of each body, after each construct closes and at the end of the template; compared with an environment-chain reference model (let/assign bind in the current scope, lookup outward; for/call/partial/contentOf/BlockWith open a scope, if and Block() do not; a far contentFor block runs in a child of its definition scope). (repeat) every scope-opening construct entered twice or more from the same place (a function called from two tags / from every loop iteration / recursively, a partial and a contentOf rendered twice, a partial that renders its own text recursively with the cache off and on, a loop run twice, BlockWith twice): the body reads a name BEFORE its own let of that name, or lets it on one path only - every entry must see the outer value (or nothing), never what an earlier entry (of this or another function) bound; a name bound to nil inside (loop variable, parameter, let, partial / contentOf data) hides the same-named outer variable. Non-trivial: depth >= 2 with at least one binding action.",
 		Bound: func(th bool) string {
 			if th {
 				return "depth <=3, all 8 action subsets per level"
@@ -323,17 +323,52 @@ func c09Repeat(t *engine.T) {
 		{"contentOf default block rendered per iteration", `<%= for (i) in [1, 2, 3] { %><%= contentOf("undefined", {"n": i}) { %><% if (n == 1) { let t = "T" } %><%= if (t) { %>F<% } else { %>-<% } %><%= n %><% } %> <% } %>`, "F1 -2 -3 "},
 		{"loop body lets a name after probing it, loop run twice", `<% let x = "outer" %><%= for (k) in [1, 2] { %><%= for (i) in [1] { %>` + probeX + `/<% let x = "inner" %>` + probeX + `,<% } %><% } %>|<%= x %>`, "outer/inner,outer/inner,|outer"},
 		{"BlockWith(child) twice by one helper", `<% let x = "outer" %><%= twice() { %>` + probeX + `/<% let x = "inner" %>` + probeX + `,<% } %>|<%= x %>`, "outer/inner,outer/inner,|outer"},
+		{"one function's let does not show in another function's body", `<% let t = "outer" %><% let f = fn() { let t = "two"
+ return t } %><% let g = fn() { return t } %><% let h = fn(t) { return t } %><%= g() %>|<%= f() %>|<%= g() %>|<%= h("p") %>|<%= g() %>|<%= t %>`, "outer|two|outer|p|outer|outer"},
+		{"a loop variable bound to nil hides the outer variable", `<% let x = "outer" %><%= for (x) in mixednil { %>[<%= if (x) { %><%= x %><% } else { %>nil<% } %>]<% } %>|<%= x %>`, "[1][nil][3]|outer"},
+		{"a parameter bound to nil hides the outer variable", `<% let a = "outer" %><% let f = fn(a) { if (a) { return "seen:" + a }
+ return "nil" } %><%= f(nil) %>|<%= f("v") %>|<%= f(nil) %>|<%= a %>`, "nil|seen:v|nil|outer"},
+		{"a let to nil inside a function hides the outer variable", `<% let user = "root" %><% let g = fn() { let user = nil
+ if (user) { return "user=" + user }
+ return "anonymous" } %><%= g() %>|<%= user %>`, "anonymous|root"},
+		{"partial data bound to nil hides the outer variable", `<% let x = "outer" %><%= partial("pnil", {"x": nil}) %>|<%= x %>`, "nil|outer"},
+		{"contentOf data bound to nil hides the outer variable", `<% let x = "outer" %><% contentFor("cn") { %><%= if (x) { %><%= x %><% } else { %>nil<% } %><% } %><%= contentOf("cn", {"x": nil}) %>|<%= contentOf("cn") %>|<%= x %>`, "nil|outer|outer"},
 		{"function defined in a loop body and called there", `<% let x = "outer" %><%= for (i) in [1, 2] { %><% let f = fn() { let r = x
  let x = "in" + i
  return r + "/" + x } %><%= f() %>,<%= f() %>;<% } %>|<%= x %>`, "outer/in1,outer/in1;outer/in2,outer/in2;|outer"},
+	}
+	// re-entering the very same template text while it is running (a partial that renders itself), cache off and on:
+	// each level reads its own names after the nested level has ended
+	for _, cached := range []bool{false, true} {
+		cached := cached
+		self := `<%= if (d < 2) { %><%= partial("self", {"n": n + "x", "d": d + 1}) %><% } %>[<%= n %> d=<%= d %><% let own = n %>]<%= own %>`
+		t.Case(fmt.Sprintf("repeat self-recursive partial cache=%v %s", cached, q(self)), true, func() (string, *engine.Fail) {
+			plush.VerifCacheReset()
+			plush.CacheEnabled = cached
+			defer func() { plush.CacheEnabled = false; plush.VerifCacheReset() }()
+			want := "[nxx d=2]nxx[nx d=1]nx[n d=0]n"
+			for pass := 1; pass <= 3; pass++ {
+				ctx := plush.NewContext()
+				ctx.Set("partialFeeder", func(string) (string, error) { return self, nil })
+				ctx.Set("n", "n")
+				ctx.Set("d", 0)
+				out, err := plush.Render(self, ctx)
+				if err != nil || out != want {
+					return "", engine.Failf("mismatch", "pass %d: expected %q, got %q / %v", pass, want, out, err)
+				}
+			}
+			return "repeat", nil
+		})
 	}
 	for _, c := range cases {
 		c := c
 		t.Case("repeat "+c.name+" "+q(c.src), true, func() (string, *engine.Fail) {
 			ctx := c09Context(map[string]string{
-				"px": `<%= x %>/<% let x = "inner" %><%= x %>`,
-				"pt": `<% if (n == 1) { let t = "T" } %><%= if (t) { %>F<% } else { %>-<% } %><%= n %>`,
+				"px":   `<%= x %>/<% let x = "inner" %><%= x %>`,
+				"pt":   `<% if (n == 1) { let t = "T" } %><%= if (t) { %>F<% } else { %>-<% } %><%= n %>`,
+				"pnil": `<%= if (x) { %><%= x %><% } else { %>nil<% } %>`,
 			})
+			ctx.Set("mixednil", []interface{}{1, nil, 3})
 			ctx.Set("twice", func(help plush.HelperContext) (template.HTML, error) {
 				a, err := help.BlockWith(help.New())
 				if err != nil {
